@@ -37,6 +37,23 @@ CHECKS = {
          "checked for agreement between forms.",
          "Lattice size G (see evidence); valid polygons; shapes non-empty.",
          "DESIGN.md section 3/C02"),
+ "C13": ("exploration", "E1",
+         "bounded exhaustive enumeration of small arrays and derivations against min/max over finite coordinates",
+         "Every array of <=3 elements over a per-kind pool (ordinary, single-vertex, empty, missing, NaN/inf "
+         "coordinates) x 5 subtypes x 7 derivations (slices, takes with/without fill, concatenations; zero rows) is "
+         "built and bounds/total_bounds(_x/_y), GeoSeries, sindex and Dask (every partition count) views are compared "
+         "with the definition. The cases that matter (validity bitmap vs zero-filled slots, buffer offsets) are "
+         "structural, so a small complete alphabet covers them.",
+         "Arrays of <=3 (derived <=6) elements; sindex.total_bounds compared only when no row is partially NaN.",
+         "DESIGN.md section 3/C13"),
+ "C14": ("exploration", "E1",
+         "bounded exhaustive enumeration of ring/part structures and lattice coordinates against integer shoelace / exact lengths",
+         "Every sequence of 0..3 rings over an 11-ring pool (1..5 vertices, zero-area, collinear, cw/ccw, Pythagorean, "
+         "generic), 1..3 parts, every lattice vertex sequence for lines, NaN vertices at every position, missing rows, "
+         "buffer offsets 0/1/2, 5 subtypes, array/scalar/GeoSeries forms, pushed through exact similarities; area "
+         "compared exactly, length exactly or to 1e-12, boundary ring-for-ring.",
+         "Closed rings; no 0-vertex rings inside a polygon; coordinates exactly representable in the subtype.",
+         "DESIGN.md section 3/C14"),
 }
 
 NOT_YET = {}
